@@ -133,10 +133,17 @@ func sm2Issuer(label string, k *sm2.PrivateKey) (c *x509.Certificate, e string) 
 
 func setup() {
 	var err error
+	// fixed SM2 test keys (the public keys appear in the case lines, so a replay sees the same keys); signatures
+	// still take their nonces from crypto/rand
 	for i := range W.sm2k {
-		if W.sm2k[i], err = sm2.GenerateKey(rand.Reader); err != nil {
-			panic(err)
-		}
+		c := sm2.P256Sm2()
+		d := new(big.Int).SetBytes([]byte(fmt.Sprintf("verif c09 sm2 test key number %02d..", i)))
+		d.Mod(d, new(big.Int).Sub(c.Params().N, big.NewInt(2)))
+		d.Add(d, big.NewInt(1))
+		k := new(sm2.PrivateKey)
+		k.Curve, k.D = c, d
+		k.X, k.Y = c.ScalarBaseMult(d.Bytes())
+		W.sm2k[i] = k
 	}
 	for i := range W.p256k {
 		if W.p256k[i], err = ecdsa.GenerateKey(elliptic.P256(), rand.Reader); err != nil {
@@ -1247,9 +1254,11 @@ type outcome struct {
 	created             bool
 	errClass            string
 	parseEq, vIss, vOth bool
+	vIssS, vOthS        string // one character per verification entry point (certificates: CheckSignatureFrom, CheckSignature)
 	nMut                int
 	tbs, sig, alg, hdr  int
 	detail              []string
+	der                 []byte // certificates: the DER the predicate reads itself
 }
 
 func (o outcome) String() string {
@@ -1260,7 +1269,15 @@ func (o outcome) String() string {
 	if len(o.detail) > 0 {
 		d = strings.Join(o.detail, ",")
 	}
-	return fmt.Sprintf("ok 1 %s %s %s %d %d %d %d %d %s", b2s(o.parseEq), b2s(o.vIss), b2s(o.vOth), o.nMut, o.tbs, o.sig, o.alg, o.hdr, d)
+	vi, vo := b2s(o.vIss), b2s(o.vOth)
+	if o.vIssS != "" {
+		vi, vo = o.vIssS, o.vOthS
+	}
+	out := fmt.Sprintf("ok 1 %s %s %s %d %d %d %d %d %s", b2s(o.parseEq), vi, vo, o.nMut, o.tbs, o.sig, o.alg, o.hdr, d)
+	if o.der != nil {
+		out += " " + hx.Hex(o.der)
+	}
+	return out
 }
 
 // The mutants run in chunks, each chunk under its own hx.Guard deadline: a case with thousands of (slow) SM2
@@ -1528,6 +1545,7 @@ func phase1(f []string, o *outcome, work **mutWork) string {
 			return o.String()
 		}
 		o.created = true
+		o.der = der
 		p, err := x509.ParseCertificate(der)
 		if err != nil {
 			o.detail = []string{"parsefail:" + slug(err.Error())}
@@ -1540,11 +1558,16 @@ func phase1(f []string, o *outcome, work **mutWork) string {
 		d := s.compare(p, issuer, signer, algo, subj)
 		o.parseEq = len(d) == 0
 		o.detail = diffDetail(d)
-		chk := func(c *x509.Certificate, by *x509.Certificate) bool {
-			return c.CheckSignatureFrom(by) == nil && by.CheckSignature(c.SignatureAlgorithm, c.RawTBSCertificate, c.Signature) == nil
+		// the two entry points are observed separately: a wrong accept in one of them must show
+		from := func(c *x509.Certificate, by *x509.Certificate) bool { return c.CheckSignatureFrom(by) == nil }
+		direct := func(c *x509.Certificate, by *x509.Certificate) bool {
+			return by.CheckSignature(c.SignatureAlgorithm, c.RawTBSCertificate, c.Signature) == nil
 		}
-		o.vIss = chk(p, issuer)
-		o.vOth = chk(p, issB)
+		chk := func(c *x509.Certificate, by *x509.Certificate) bool { return from(c, by) || direct(c, by) } // a mutant survives if EITHER accepts
+		o.vIss = from(p, issuer) && direct(p, issuer)
+		o.vOth = from(p, issB) || direct(p, issB)
+		o.vIssS = b2s(from(p, issuer)) + b2s(direct(p, issuer))
+		o.vOthS = b2s(from(p, issB)) + b2s(direct(p, issB))
 		if os.Getenv("C09_DEBUG") != "" {
 			fmt.Fprintf(os.Stderr, "debug %s selfSigned=%v CheckSignatureFrom=%v CheckSignature=%v ku=%d bc=%v ca=%v der=%x\n", f[1], s.selfSigned,
 				p.CheckSignatureFrom(issuer), issuer.CheckSignature(p.SignatureAlgorithm, p.RawTBSCertificate, p.Signature), p.KeyUsage, p.BasicConstraintsValid, p.IsCA, der)
@@ -1650,7 +1673,7 @@ func runCase(line string) string {
 		res, _ := hx.Guard(deadline, func() string { return runE(f) })
 		return f[1] + " " + res
 	}
-	if len(f) != 7 || f[0] != "T" {
+	if len(f) < 7 || len(f) > 9 || f[0] != "T" {
 		id := "?"
 		if len(f) > 1 {
 			id = f[1]
@@ -1703,6 +1726,24 @@ var family = map[string][]int{"sm2": {16, 17, 18}, "rsa": {3, 4, 5, 6, 13, 14, 1
 // is not UTF-8, a year above 9999, a name constraint that is not IA5, NextUpdate before ThisUpdate)?  Decided on the
 // generated values alone (the package is not asked).  The systematic kind x signer x algorithm block of the
 // generator uses templates without such values, so that each combination shows what the algorithm choice does.
+func certFields(s *certSpec) string {
+	ku := s.ku
+	if s.kuOverride >= 0 {
+		ku = s.kuOverride
+	}
+	ips := make([][]byte, len(s.ips))
+	for i, ip := range s.ips {
+		ips[i] = []byte(ip)
+	}
+	k := W.sm2k[s.subjKey]
+	if s.selfSigned {
+		k = W.sm2k[0]
+	}
+	return fmt.Sprintf("%s;%d;%d;%d;%s,%s,%d,%s;%s;%s;%s;%s;%s", s.serial.String(), s.nb.Unix(), s.na.Unix(), ku,
+		b2s(s.bcValid), b2s(s.isCA), s.maxPath, b2s(s.maxPathZero), hexStrs(s.dns), hexStrs(s.email), hx.HexList(ips),
+		hx.Hex(k.X.Bytes()), hx.Hex(k.Y.Bytes()))
+}
+
 func plantedReject(kind, signer string, tseed uint64) bool {
 	badName := func(n nameSpec) bool {
 		all := [][]string{n.country, n.org, n.ou, n.loc, n.prov, n.street, n.postal, {n.serial, n.cn}}
@@ -1725,6 +1766,9 @@ func plantedReject(kind, signer string, tseed uint64) bool {
 	case "cert":
 		s := genCert(tseed, signer)
 		for _, x := range s.perm {
+			if x == "" { // refused since 26cf598
+				return true
+			}
 			for i := 0; i < len(x); i++ {
 				if x[i] >= 0x80 {
 					return true
@@ -1749,7 +1793,7 @@ func plantedReject(kind, signer string, tseed uint64) bool {
 func gen(seed uint64, tier string) []string {
 	r := hx.NewRng(seed)
 	// measured: about 0.25 CPU-s per case in mode q and 0.65 CPU-s in mode a (SM2 verification ~1.4 ms dominates)
-	mode, nRand := "q", 180
+	mode, nRand := "q", 240
 	if tier == "thorough" {
 		mode, nRand = "a", 2600
 	}
@@ -1757,7 +1801,20 @@ func gen(seed uint64, tier string) []string {
 	id := 0
 	emit := func(kind, signer string, algo int, tseed uint64) {
 		id++
-		lines = append(lines, fmt.Sprintf("T %d %s %s %d %d %s", id, kind, signer, algo, tseed, mode))
+		// last field: v = the template is inside the documented domain of its fields (creation must succeed when the
+		// (signer, algorithm) pair is acceptable), x = it carries a planted invalid value (computed from the spec, never
+		// by calling the library)
+		tmpl := "v"
+		if plantedReject(kind, signer, tseed) {
+			tmpl = "x"
+		}
+		// 9th field (certificates): the template values of the fields the property names, for the predicate's own
+		// DER reader: serial;notBefore;notAfter;keyUsage;bcValid,isCA,maxPathLen,maxPathLenZero;dns;emails;ips;pubX;pubY
+		flds := "-"
+		if kind == "cert" && tmpl == "v" {
+			flds = certFields(genCert(tseed, signer))
+		}
+		lines = append(lines, fmt.Sprintf("T %d %s %s %d %d %s %s %s", id, kind, signer, algo, tseed, mode, tmpl, flds))
 	}
 	signers := []string{"sm2", "rsa", "p256"}
 	clean := func(kind, signer string) uint64 {
@@ -1784,8 +1841,8 @@ func gen(seed uint64, tier string) []string {
 		}
 	}
 	for i := 0; i < nRand; i++ {
-		kind := []string{"cert", "cert", "cert", "cert", "cert", "csr", "csr", "rl", "rl", "crl"}[r.Intn(10)]
-		s := signers[r.Intn(3)]
+		kind := []string{"cert", "cert", "cert", "cert", "cert", "csr", "csr", "rl", "crl", "crl"}[r.Intn(10)]
+		s := []string{"sm2", "sm2", "sm2", "rsa", "p256", "p256"}[r.Intn(6)]
 		algo := 0
 		switch r.Intn(10) {
 		case 0, 1, 2:
